@@ -575,6 +575,62 @@ func (fr *Frame) moduleCall(st *State, fn *ssa.Function, rt types.Type, args []V
 		if len(args) == 1 {
 			return set(F.I64(0))
 		}
+	// --- a multiplicatively written group at the module layer (the target group of the pairing): products are
+	// sums of exponents, powers are multiples; the maps that act as a fixed power have a symbolic multiplier that a
+	// contract may define (ghost mfrob / mexpt / mconj)
+	case "Mul":
+		if len(args) == 3 && isMod(1) && isMod(2) {
+			return set(F.Add(ld(1), ld(2)))
+		}
+	case "Square", "CyclotomicSquare":
+		if len(args) == 2 && isMod(1) {
+			return set(F.Mul(F.I64(2), ld(1)))
+		}
+	case "Inverse":
+		if len(args) == 2 && isMod(1) {
+			return set(F.Neg(ld(1)))
+		}
+	case "SetOne":
+		if len(args) == 1 {
+			return set(F.I64(0))
+		}
+	case "Conjugate", "Frobenius", "FrobeniusSquare", "FrobeniusCube", "FrobeniusQuad", "Expt", "ExptHalf", "Expc1", "Expc2":
+		if len(args) == 2 && isMod(1) {
+			sym := func(name string) *Term {
+				if g, ok := st.ghosts[name]; ok {
+					return g
+				}
+				v.assume("module layer: " + fn.Name() + " of " + recvName(rt) + " acts as a fixed power (symbolic multiplier " + name + ")")
+				return F.Var("module."+name+"."+recvName(rt), SInt)
+			}
+			saved := F.Distribute
+			F.Distribute = true
+			defer func() { F.Distribute = saved }()
+			x := ld(1)
+			switch fn.Name() {
+			case "Conjugate":
+				return set(F.Mul(sym("mconj"), x))
+			case "Frobenius":
+				return set(F.Mul(sym("mfrob"), x))
+			case "FrobeniusSquare":
+				f := sym("mfrob")
+				return set(F.Mul(f, f, x))
+			case "FrobeniusCube":
+				f := sym("mfrob")
+				return set(F.Mul(f, f, f, x))
+			case "FrobeniusQuad":
+				f := sym("mfrob")
+				return set(F.Mul(f, f, f, f, x))
+			case "Expt":
+				return set(F.Mul(sym("mexpt"), x))
+			case "ExptHalf":
+				return set(F.Mul(sym("mexpthalf"), x))
+			case "Expc1":
+				return set(F.Mul(sym("mexpc1"), x))
+			case "Expc2":
+				return set(F.Mul(sym("mexpc2"), x))
+			}
+		}
 	case "IsInfinity", "IsZero":
 		if len(args) == 1 {
 			used()
@@ -583,7 +639,10 @@ func (fr *Frame) moduleCall(st *State, fn *ssa.Function, rt types.Type, args []V
 	case "Equal":
 		if len(args) == 2 && isMod(1) {
 			used()
-			return v.ringEq(ld(0), ld(1)), true
+			// on the branch where the two elements are equal the identities are needed in the quotient by that
+			// relation: the integer representatives are identified (the other branch learns a disequality, which
+			// cannot make a polynomial identity provable that does not hold identically)
+			return F.Eq(ld(0), ld(1)), true
 		}
 	}
 	return nil, false
